@@ -109,6 +109,7 @@ def ex_cartesian(ctx, lat_case, mag, n, hostile, seed):
     if not explicit:
         reg.magnitudes = bins
     rc = {"exec": "cartesian", "args": {"lat_case": lat_case, "mag": mag, "n": n, "hostile": hostile, "seed": seed}}
+    ctx.current_case = rc
     tags = {"region": "cartesian", "flags": lat_case.get("flags") is not None, "explicit_bins": explicit, "hostile": hostile, "n0": n == 0}
     lon, lat, ij = place_events(rng, model.ex, model.ey, active, n, float(lat_case["dh"]))
     mags, mk = place_mags(rng, bins, n)
@@ -212,6 +213,7 @@ def ex_quadtree(ctx, qmode, zoom, mag, n, hostile, seed):
     lat = numpy.where((mode == 0) | (mode == 2), b[k, 1], b[k, 1] + rng.uniform(0.2, 0.8, n) * (b[k, 3] - b[k, 1]))
     mags, mk = place_mags(rng, bins, n)
     rc = {"exec": "quadtree", "args": {"qmode": qmode, "zoom": zoom, "mag": mag, "n": n, "hostile": hostile, "seed": seed}}
+    ctx.current_case = rc
     tags = {"region": "quadtree", "explicit_bins": explicit, "hostile": hostile, "n0": n == 0}
     # outside points: beyond the Mercator limit, or exactly ON the grid's north edge (north is exclusive)
     run_case(ctx, rc, tags, reg, bins, explicit, lon, lat, mags, k, mk, hostile, rng,
